@@ -958,6 +958,9 @@ fn main() {
         if cx.lean.differs(&m, &rust_consts) {
             cx.rep.disagree("consts", json!("generated constants vs the Rust API"), &rust_consts, &m);
         }
+        if Ipv4Addr::from_str("").is_ok() || Ipv6Addr::from_str("").is_ok() {
+            cx.rep.spec_fail("C15:codec-hypothesis", "std reads the empty text as an IP address", json!({"string": ""}));
+        }
         // the TXT prefix is only visible through behaviour: records without it are skipped (not modelled further)
         cx.rep.hit("prim checks");
     }
